@@ -333,7 +333,7 @@ func selftestSimConstructs(n int) int {
 		for wi := 0; wi < w; wi++ {
 			var prog []Call
 			for k := r.rangeIn(1, 4); k > 0; k-- {
-				prog = append(prog, Call{Fn: "synth", I1: r.intn(11), I2: r.rangeIn(1, 9)})
+				prog = append(prog, Call{Fn: "synth", I1: r.intn(12), I2: r.rangeIn(1, 9)})
 			}
 			conc = append(conc, prog)
 		}
